@@ -235,8 +235,11 @@ func c11Run(inI interface{}, env *Env) *Failure {
 					case "yield":
 						simrt.Yield()
 					case "done":
-						s.DoneTask()
+						// recorded at the invocation: the closer may go on as soon as the counter
+						// drops, which can be before DoneTask has returned to its caller (an
+						// implementation is free to have scheduling points after the drop)
 						rec(c11Rec{kind: "done", scope: a.Scope})
+						s.DoneTask()
 					case "err", "kill", "stop":
 						// the documented contract: no mutating call on a scope object once its
 						// Close was invoked. A real program orders the two; here a gate does
